@@ -26,6 +26,7 @@ EXPLANATION = (
     "state and break reproducibility by seed (a positive fixture proves the classifier still recognises such a call). "
     "R2: reseed() is called on every path before the first draw of a pass and builds self.rng from self.seed only. "
     "R3: one single index draw feeds both attribute columns. R4/R5: sizes and units."
+    ' R2 also explores reseed() with the seed parameter at its own default: the stored seed must not change.'
 )
 ASSUMPTIONS = [
     "numpy.random.default_rng(seed) with a fixed seed sequence produces a deterministic stream; numpy.random.<function> at module level uses the global state",
